@@ -415,6 +415,25 @@ func rewriteIdents(n ast.Node, f func(e ast.Expr, isSel, isKey bool) ast.Expr) {
 			return f(id, false, false)
 		}
 		visit(e)
+		// (&x).f is x.f and *(&x) is x: an argument &x substituted for a pointer parameter reads as the variable again
+		addrOf := func(y ast.Expr) ast.Expr {
+			if u, ok := unparen(y).(*ast.UnaryExpr); ok && u.Op == token.AND {
+				if _, isLit := unparen(u.X).(*ast.CompositeLit); !isLit {
+					return u.X
+				}
+			}
+			return nil
+		}
+		switch x := e.(type) {
+		case *ast.SelectorExpr:
+			if y := addrOf(x.X); y != nil {
+				x.X = y
+			}
+		case *ast.StarExpr:
+			if y := addrOf(x.X); y != nil {
+				return y
+			}
+		}
 		return e
 	}
 	exprs := func(es []ast.Expr) {
